@@ -52,35 +52,35 @@ var jidTexts = []string{"a@example.net", "example.net", "not a jid@", "@", "A@EX
 func genFieldValue(g *gen, typ string) string {
 	switch typ {
 	case "boolean":
-		return []string{"true", "false", "0", "1", "yes", "", "TRUE"}[g.r.Intn(7)]
+		return []string{"true", "false", "0", "1", "yes", "", "TRUE"}[g.intn(7)]
 	case "jid-single", "jid-multi":
-		return jidTexts[g.r.Intn(len(jidTexts))]
+		return jidTexts[g.intn(len(jidTexts))]
 	}
 	return g.text()
 }
 
 func genFormDesc(g *gen, dupVars bool) formDesc {
-	fd := formDesc{title: g.opt(), instr: g.opt(), typ: []string{"form", "form", "result"}[g.r.Intn(3)]}
-	if g.r.Chance(1, 12) {
+	fd := formDesc{title: g.opt(), instr: g.opt(), typ: []string{"form", "form", "result"}[g.intn(3)]}
+	if g.chance(1, 12) {
 		fd.typ = "cancel"
 		return fd
 	}
 	n := g.count(6)
 	for i := 0; i < n; i++ {
-		f := fieldDesc{typ: fieldTypes[g.r.Intn(len(fieldTypes))], label: g.opt(), desc: g.opt(), required: g.r.Chance(1, 3)}
+		f := fieldDesc{typ: fieldTypes[g.intn(len(fieldTypes))], label: g.opt(), desc: g.opt(), required: g.chance(1, 3)}
 		if f.typ != "fixed" {
 			f.varName = fmt.Sprintf("v%d", i)
-			if g.r.Chance(1, 6) {
+			if g.chance(1, 6) {
 				f.varName += g.ntext()
 			}
-			if dupVars && i > 0 && g.r.Chance(1, 3) {
-				f.varName = fd.fields[g.r.Intn(i)].varName
+			if dupVars && i > 0 && g.chance(1, 3) {
+				f.varName = fd.fields[g.intn(i)].varName
 			}
 		}
 		for k := g.count(3); k > 0; k-- {
 			f.values = append(f.values, genFieldValue(g, f.typ))
 		}
-		if isList(f.typ) || g.r.Chance(1, 8) {
+		if isList(f.typ) || g.chance(1, 8) {
 			for k := g.count(3); k > 0; k-- {
 				f.opts = append(f.opts, [2]string{g.opt(), g.text()})
 			}
@@ -407,15 +407,15 @@ func genOps(g *gen, fd formDesc) []setOp {
 	for i := 0; i < n; i++ {
 		var o setOp
 		typ := ""
-		if len(fd.fields) > 0 && !g.r.Chance(1, 8) {
-			f := fd.fields[g.r.Intn(len(fd.fields))]
+		if len(fd.fields) > 0 && !g.chance(1, 8) {
+			f := fd.fields[g.intn(len(fd.fields))]
 			o.id, typ = f.varName, f.typ
 		} else {
 			o.id = "unknown" + g.opt()
 		}
 		kinds := "slbjJ"
-		k := kinds[g.r.Intn(5)]
-		if !g.r.Chance(1, 5) {
+		k := kinds[g.intn(5)]
+		if !g.chance(1, 5) {
 			// mostly the kind the field expects
 			switch typ {
 			case "boolean":
@@ -436,14 +436,14 @@ func genOps(g *gen, fd formDesc) []setOp {
 		case 's':
 			o.s = g.text()
 		case 'b':
-			o.b = g.r.Bool()
+			o.b = g.boolean()
 		case 'j':
-			o.s = canonJID(validJIDs[g.r.Intn(len(validJIDs))])
+			o.s = canonJID(validJIDs[g.intn(len(validJIDs))])
 		case 'l':
 			o.l = g.texts(3)
 		case 'J':
 			for m := g.count(3); m > 0; m-- {
-				o.l = append(o.l, canonJID(validJIDs[g.r.Intn(len(validJIDs))]))
+				o.l = append(o.l, canonJID(validJIDs[g.intn(len(validJIDs))]))
 			}
 		}
 		ops = append(ops, o)
@@ -573,10 +573,19 @@ type formRun struct {
 // formCase runs one generated form through every path and the oracle.
 func formCase(c *ctx, sub uint64, bad bool, class string) {
 	g := &gen{r: common.NewRand(sub), bad: bad}
-	dup := g.r.Chance(1, 6)
+	dup := g.chance(1, 6)
 	fd := genFormDesc(g, dup)
 	ops := genOps(g, fd)
 	formEval(c, fmt.Sprintf("val form.Data %d %s", sub, common.B(bad)), fd, ops, dup, bad, class)
+}
+
+// formEnum evaluates the form and the Set operations the generators build from a script.
+func formEnum(c *ctx, script []int) []int {
+	g := &gen{enum: true, script: script}
+	fd := genFormDesc(g, false)
+	ops := genOps(g, fd)
+	formEval(c, fmt.Sprintf("val form.Data %s 3", scriptString(script)), fd, ops, false, false, "exhaustive")
+	return g.radices
 }
 
 // formEval drives one form (description + Set operations) through every path.
